@@ -143,4 +143,37 @@ theorem recvC_any (c0 max : Nat) (t : Transport) :
   have := recvLoop_any max (t.wire.length + t.sched.length + 2) t [] c0 (by decide)
   simpa [recvC, computeNeededBytes_nil] using this
 
+/-- a whole session on ANY wire: the messages returned, in order, followed by what the last (failing)
+    call consumed, are a prefix of the wire; every returned message is one frame within the limit. -/
+theorem recvAll_any (c0 max : Nat) : ∀ (n : Nat) (t : Transport),
+    ∃ got, t.wire = (recvAll c0 max n t).1.flatten ++ got ++ (recvAll c0 max n t).2.2.wire ∧
+      ∀ m ∈ (recvAll c0 max n t).1, Framed m ∧ (max = 0 ∨ m.length ≤ max) := by
+  intro n
+  induction n with
+  | zero => intro t; exact ⟨[], by simp [recvAll], by simp [recvAll]⟩
+  | succ n ih =>
+    intro t
+    obtain ⟨got, hw, hmsg⟩ := recvC_any c0 max t
+    cases hres : (recvC c0 max t).res with
+    | msg bs =>
+      obtain ⟨hbs, hf, hl⟩ := hmsg bs hres
+      obtain ⟨got', hw', hall⟩ := ih (recvC c0 max t).t
+      have e : recvAll c0 max (n + 1) t =
+          (bs :: (recvAll c0 max n (recvC c0 max t).t).1, (recvAll c0 max n (recvC c0 max t).t).2.1,
+            (recvAll c0 max n (recvC c0 max t).t).2.2) := by
+        rw [recvAll]; simp only [hres]
+      rw [e]
+      refine ⟨got', ?_, ?_⟩
+      · simp only [List.flatten_cons, List.append_assoc]
+        rw [hw, ← hbs, hw']
+        simp only [List.append_assoc]
+      · intro m hm
+        rcases List.mem_cons.1 hm with rfl | hm'
+        · exact ⟨hf, hl⟩
+        · exact hall m hm'
+    | ioErr => exact ⟨got, by rw [recvAll]; simp only [hres]; simpa using hw, by rw [recvAll]; simp [hres]⟩
+    | eof => exact ⟨got, by rw [recvAll]; simp only [hres]; simpa using hw, by rw [recvAll]; simp [hres]⟩
+    | tooBig => exact ⟨got, by rw [recvAll]; simp only [hres]; simpa using hw, by rw [recvAll]; simp [hres]⟩
+    | fuel => exact ⟨got, by rw [recvAll]; simp only [hres]; simpa using hw, by rw [recvAll]; simp [hres]⟩
+
 end Kmip
